@@ -1,6 +1,7 @@
 """Result collection, known-findings handling, evidence writing."""
 import json
 import os
+import re
 import time
 
 VERIF = os.path.dirname(os.path.dirname(os.path.abspath(__file__)))
@@ -33,14 +34,38 @@ def load_known():
     return out
 
 
+# a failed obligation whose text says that the rule could not look at the code (the evaluated function left the
+# interpreter's fragment) is not evidence against the property: it is recorded as undecided, never as a violation
+UNDECIDED_RE = re.compile(r"not evaluable|Unknown\(|not analysable")
+
+
+# Rules that recognise one spelling of the code (a loop that pushes, a guard written `x == 0.0`, a format! template).
+# They can confirm; a miss cannot tell a defect from a refactoring, so a miss is undecided unless the call site passes
+# positive=True (the construct was recognised and is of the wrong shape).  Each has a rule that decides the same
+# ground by evaluation, named on the right.
+SHAPE_RULES = {
+    "D-OFFSET": "COMPILE-EQUIV (C02 part: objective value incl. the constant)",
+    "W-ORDER": "EXPAND-EQUIV", "T-BLOCKS": "EXPAND-EQUIV", "T-RANGE": "EXPAND-EQUIV",
+    "T-BOUNDROWS": "STD-EQUIV", "T-FLIP": "STD-EQUIV", "T-REMOVE": "STD-EQUIV", "T-SLACK": "STD-EQUIV", "W-PUSHPAIR": "STD-EQUIV",
+    "D-HANDLE": "FRONT-DOOR-EQUIV",
+    "T-SECTIONS": "LP-ROUND-TRIP", "NAME-NS": "LP-ROUND-TRIP", "T-SENSE": "LP-ROUND-TRIP", "T-REL": "LP-ROUND-TRIP",
+}
+
+
 class Report:
-    """collects obligations for one property run"""
+    """collects obligations for one property run.
+
+    Three outcomes per obligation: discharged, violated (positive evidence: a counterexample of an evaluated family,
+    or a recognised construct of the wrong shape), undecided (the rule could not find or evaluate what it looks at --
+    after a refactoring, say).  Only violations make a check fail.  Undecided obligations are printed and counted; a
+    property of which nothing at all could be decided on the current tree is reported as BLIND, which does fail."""
 
     def __init__(self, prop, tier):
         self.prop = prop
         self.tier = tier
         self.t0 = time.time()
         self.obligations = []  # dicts: rule, key, where, ok, detail
+        self.undecided_obs = []  # dicts: rule, key, where, detail
         self.instances = {}  # rule -> count of rule instances seen on /repo
         self.floors = {}  # rule -> floor
         self.fixture = {}  # rule -> bool fired on bad fixture / silent on good
@@ -53,11 +78,20 @@ class Report:
         self.tables = {}
 
     # -- recording ---------------------------------------------------------------
-    def ob(self, rule, key, ok, where="", detail=""):
+    def ob(self, rule, key, ok, where="", detail="", undecided=False, positive=False):
         key = "_".join(str(key).split())
+        if not ok and not positive and rule in SHAPE_RULES:
+            undecided = True
+        if not ok and (undecided or UNDECIDED_RE.search(str(detail))):
+            self.undecided_obs.append({"rule": rule, "key": key, "where": where, "detail": detail})
+            return ok
         self.obligations.append({"rule": rule, "key": key, "ok": bool(ok), "where": where, "detail": detail})
         self.instances[rule] = self.instances.get(rule, 0) + 1
         return ok
+
+    def undecided(self, rule, key, where="", detail=""):
+        """the rule could not find / recognise / evaluate its anchor on this tree"""
+        return self.ob(rule, key, False, where, detail, undecided=True)
 
     def count(self, rule, n=1):
         self.instances[rule] = self.instances.get(rule, 0) + n
@@ -99,7 +133,10 @@ class Report:
         for rule, fl in self.floors.items():
             n = self.instances.get(rule, 0)
             if n < fl:
-                violations.append({"rule": rule, "key": "FLOOR", "ok": False, "where": "", "detail": "rule %s matched %d instance(s) on /repo, fewer than the %d confirmed by hand: the anchored code is no longer visible to the rule" % (rule, n, fl)})
+                self.undecided_obs.append({"rule": rule, "key": "FLOOR", "where": "", "detail": "rule %s decided %d instance(s) on this tree, fewer than the %d confirmed by hand on the reference tree: part of the anchored code is no longer visible to the rule" % (rule, n, fl)})
+        decided = [o for o in self.obligations if not o["rule"].startswith("ENGINE-SELFTEST")]
+        if not decided:
+            violations.append({"rule": "BLIND", "key": "nothing-decided", "ok": False, "where": "", "detail": "no rule of this property could decide anything on the current tree (%d undecided): the code the property is anchored in is no longer visible to the checker" % len(self.undecided_obs)})
         for rule, ok in self.fixture.items():
             if not ok:
                 violations.append({"rule": rule, "key": "FIXTURE", "ok": False, "where": "", "detail": "rule %s did not fire on its bad fixture (or fired on the good twin): checker self-test failed" % rule})
@@ -113,6 +150,12 @@ class Report:
                 continue
             seen.add(key)
             lines.append("KNOWN-FINDING: property=%s %s %s %s :: %s" % (self.prop, o["rule"], o["key"], o["where"], what))
+        useen = set()
+        for o in self.undecided_obs:
+            if (o["rule"], o["key"]) in useen or len(useen) >= 12:
+                continue
+            useen.add((o["rule"], o["key"]))
+            lines.append("UNDECIDED: property=%s %s %s %s :: %s" % (self.prop, o["rule"], o["key"], o["where"], str(o["detail"])[:300]))
         for o in violations:
             safe = "".join(c if c.isalnum() or c in "-_." else "_" for c in ("%s-%s" % (o["rule"], o["key"])))[:150]
             rp = os.path.join(EVID, "replay", "%s-%s.json" % (self.prop, safe))
@@ -133,6 +176,8 @@ class Report:
                 "obligations": n_ob,
                 "discharged": n_ok,
                 "known_findings": len(seen),
+                "undecided": len(self.undecided_obs),
+                "undecided_samples": self.undecided_obs[:20],
                 "rule_instances": dict(sorted(self.instances.items())),
                 "floors": dict(sorted(self.floors.items())),
                 "fixture_selftest": dict(sorted(self.fixture.items())),
